@@ -114,6 +114,25 @@ def ll_login(w, sc):
     return s
 
 
+def key_candidates(draws):
+    """Plausible readings of a 32-byte key from the draws logged during one call."""
+    if not draws:
+        return []
+    out = []
+    for d in draws:
+        if len(d) == 32:
+            out.append(d)
+    cat = b"".join(draws)
+    if len(cat) >= 32:
+        out.append(cat[:32])
+        out.append(cat[-32:])
+    seen = []
+    for c in out:
+        if c not in seen:
+            seen.append(c)
+    return seen
+
+
 def whitebox(s):
     """Recompute every value of an LL session with the model from the logged
     draws. Returns (info, attribution_ok). attribution_ok False means the
@@ -128,15 +147,21 @@ def whitebox(s):
     v = M.calc_v(un, pn, s.salt)
     info["v"] = v
     info["v_ok"] = (M.to_le(v) == s.v)
-    if not s.b_draw or len(s.b_draw[0]) != 32 or not s.a_draw or len(s.a_draw[0]) != 32:
-        return info, False
-    b = M.le(s.b_draw[0])
-    a = M.le(s.a_draw[0])
-    srv = M.ServerSide(un, s.v, s.salt, b)
-    cli = M.ClientSide(M.norm(sc["cuser"]), M.norm(sc["cpw"]), a)
-    info["B_ok"] = (srv.B_bytes == s.B)
-    info["A_ok"] = (cli.A_bytes == s.A)
-    if not (info["B_ok"] and info["A_ok"]):
+    # the key may have been drawn in one piece, in several pieces, or after other draws: try the plausible readings
+    srv = cli = None
+    for cand in key_candidates(s.b_draw):
+        t = M.ServerSide(un, s.v, s.salt, M.le(cand))
+        if t.B_bytes == s.B:
+            srv = t
+            break
+    for cand in key_candidates(s.a_draw):
+        t = M.ClientSide(M.norm(sc["cuser"]), M.norm(sc["cpw"]), M.le(cand))
+        if t.A_bytes == s.A:
+            cli = t
+            break
+    info["B_ok"] = srv is not None
+    info["A_ok"] = cli is not None
+    if srv is None or cli is None:
         return info, False
     ss = srv.session(s.A)
     cs = cli.session(s.B, s.salt)
